@@ -1,7 +1,6 @@
 SPECIFICATION Spec
 CONSTANTS
   MaxWeight = 2
-  MaxOps = 30
   Rich = FALSE
 VIEW View
 CONSTRAINT Bound
